@@ -13,6 +13,7 @@ package main
 
 import (
 	"fmt"
+	"os"
 	"go/constant"
 	"go/token"
 	"go/types"
@@ -1887,37 +1888,61 @@ func (e *Engine) entryFacts(fn *ssa.Function) factSet {
 		for i, a := range args {
 			argKeys[i] = e.keyOf(a)
 		}
-		rk := func(k Key) (Key, bool) {
+		// a value reachable from several arguments (the form and the list of its elements) is named through each
+		rk := func(k Key) []Key {
+			var out []Key
 			for i, ak := range argKeys {
 				if i < len(fn.Params) && ak.valid() && k.Root == ak.Root && k.Glob == ak.Glob && strings.HasPrefix(k.Path, ak.Path) {
-					return Key{Root: fn.Params[i], Path: k.Path[len(ak.Path):]}, true
+					out = append(out, Key{Root: fn.Params[i], Path: k.Path[len(ak.Path):]})
 				}
 			}
-			return k, false
+			return out
 		}
-		rt := func(t Term) (Term, bool) {
+		rt := func(t Term) []Term {
 			if t.Kind == 0 {
-				return t, true
+				return []Term{t}
 			}
-			k, ok := rk(t.K)
-			return Term{Kind: t.Kind, K: k}, ok
+			var out []Term
+			for _, k := range rk(t.K) {
+				out = append(out, Term{Kind: t.Kind, K: k})
+			}
+			return out
 		}
 		here := factSet{}
 		for _, f := range e.holding(site.Block()).list() {
-			var ok, ok2 bool
 			switch f.Kind {
 			case "type", "nottype", "nonnil", "nil":
-				f.K, ok = rk(f.K)
-				ok2 = true
+				for _, k := range rk(f.K) {
+					g := f
+					g.K = k
+					here.add(g)
+				}
 			case "even":
-				f.A, ok = rt(f.A)
-				ok2 = true
+				for _, a := range rt(f.A) {
+					g := f
+					g.A = a
+					here.add(g)
+				}
 			default:
-				f.A, ok = rt(f.A)
-				f.B, ok2 = rt(f.B)
+				for _, a := range rt(f.A) {
+					for _, b := range rt(f.B) {
+						g := f
+						g.A, g.B = a, b
+						here.add(g)
+					}
+				}
 			}
-			if ok && ok2 {
-				here.add(f)
+		}
+		if os.Getenv("LISPCHECK_DEBUG_ENTRY") == fn.Name() {
+			fmt.Fprintf(os.Stderr, "entry facts of %s at %s:\n", fn.Name(), site.Parent().Name())
+			for i, ak := range argKeys {
+				fmt.Fprintf(os.Stderr, "  arg%d key %s\n", i, ak.String())
+			}
+			for _, f := range e.holding(site.Block()).list() {
+				fmt.Fprintf(os.Stderr, "  site: %s\n", f.String())
+			}
+			for _, f := range here.list() {
+				fmt.Fprintf(os.Stderr, "  here: %s\n", f.String())
 			}
 		}
 		if acc == nil {
